@@ -37,6 +37,8 @@ the rules see:
   S15 tuple assignment    `a, b = x, y`  ->  `a = x` ; `b = y`
   S16 return in try       `try: return e except: H(jumps)`  ->  `try: r = e except: H` ; `return r`
   S18 conditional rebind  `if c: x = e(x)` ; rest(x)  ->  `x1 = e(x) if c else x` ; rest(x1)   (function level only)
+  S19 jumping branches    `if c: A(jumps)` ; B(jumps)  ->  the shorter of A, B is the guard (`sys.exit()` counts as a jump)
+  S13b scopes             a local assigned in several blocks, each use following its own assignment: one name per assignment
   S12 literal loops       `for x in (a, b): S(x)`  ->  `S(a)` ; `S(b)`   (at most four simple elements, no
                           `break`, `continue` only as leading guards, x not used afterwards)
 
@@ -77,6 +79,8 @@ def jumps(body: Sequence[ast.stmt]) -> bool:
     last = body[-1]
     if isinstance(last, JUMPS):
         return True
+    if isinstance(last, ast.Expr) and isinstance(last.value, ast.Call) and ast.unparse(last.value.func) in ("sys.exit", "exit", "os._exit"):
+        return True  # never returns
     if isinstance(last, ast.If) and last.orelse:
         return jumps(last.body) and jumps(last.orelse)
     return False
@@ -685,6 +689,14 @@ class Canon:
             if s.orelse and jumps(s.orelse):
                 new = _loc(ast.If(test=negate(s.test), body=s.orelse, orelse=[]), s)
                 return [new] + s.body, 0
+            # S19 two jumping alternatives: the shorter one is the guard
+            #     `if c: A(jumps)` ; B(jumps, the rest of the block)  with len(A) > len(B)  ->  `if not c: B` ; A
+            if not s.orelse and jumps(s.body) and rest and jumps(rest) and not any(isinstance(x, ast.If) for x in rest):
+                la, lb = len(s.body), len(rest)
+                negated = isinstance(s.test, ast.UnaryOp) and isinstance(s.test.op, ast.Not)
+                if la > lb or (la == lb and negated):
+                    new_if = _loc(ast.If(test=negate(s.test), body=list(rest), orelse=[]), s)
+                    return [new_if] + s.body, len(rest)
             # S6 conditional value: `if c: x = a else: x = b`  ->  `x = a if c else b`
             if len(s.body) == 1 and len(s.orelse) == 1:
                 ta, tb = _plain_target(s.body[0]), _plain_target(s.orelse[0])
@@ -1127,8 +1139,53 @@ class Canon:
             return all(self._stable_flag(v, facts) for v in e.values)
         return False
 
+    def _split_scopes(self, fn: ast.AST, facts: NameFacts) -> bool:
+        """S13b: a local that is assigned in several places, each assignment being used only by the statements
+        that follow it in its own block (`err` in two handlers, `_match` in two branches): one name each."""
+        blocks = list(_blocks(fn))
+        for x, n_st in facts.stores.items():
+            if n_st < 2 or x in facts.special or x in facts.nested_refs:
+                continue
+            groups: List[Tuple[List[ast.stmt], int, int]] = []
+            ok = True
+            for blk in blocks:
+                idxs = [i for i, st in enumerate(blk) if _plain_target(st) == x]
+                for k, i in enumerate(idxs):
+                    if _all_loads(blk[i].value, x):  # type: ignore[attr-defined]
+                        ok = False
+                    j = idxs[k + 1] if k + 1 < len(idxs) else len(blk)
+                    region = blk[i + 1:j]
+                    if any(isinstance(n, ast.Name) and n.id == x and isinstance(n.ctx, (ast.Store, ast.Del)) for r in region for n in ast.walk(r)):
+                        ok = False
+                    groups.append((blk, i, j))
+            if not ok or len(groups) != n_st:
+                continue
+            total = sum(_all_loads(r, x) for blk, i, j in groups for r in blk[i + 1:j])
+            if total != facts.loads.get(x, 0):
+                continue
+            used = set(facts.stores) | set(facts.loads) | facts.special
+            k = 0
+            for blk, i, j in groups[1:]:
+                k += 1
+                while f"{x}__{k}" in used:
+                    k += 1
+                new = f"{x}__{k}"
+                used.add(new)
+                st = blk[i]
+                if isinstance(st, ast.Assign):
+                    st.targets[0].id = new  # type: ignore[attr-defined]
+                else:
+                    st.target.id = new  # type: ignore[attr-defined]
+                ren = _Subst(x, ast.Name(id=new, ctx=ast.Load()))
+                for m in range(i + 1, j):
+                    blk[m] = ren.visit(blk[m])
+            return True
+        return False
+
     def _one_let(self, fn: ast.AST, body: List[ast.stmt], facts: NameFacts) -> bool:
         if self._split_rebinding(fn, facts):
+            return True
+        if self._split_scopes(fn, facts):
             return True
         for blk in _blocks(fn):
             for i, s in enumerate(blk):
@@ -1188,8 +1245,8 @@ class Canon:
                             blk[k] = sub.visit(blk[k])
                         del blk[i]
                         return True
-                # alias of a stable attribute path: substitute everywhere
-                if _is_path(value) and nloads >= 1:
+                # alias of a stable attribute path (or of a stable name): substitute everywhere
+                if (_is_path(value) or isinstance(value, ast.Name)) and nloads >= 1:
                     root = _path_root(value)
                     attrs = _path_attrs(value)
                     stable_root = (
